@@ -232,12 +232,12 @@ Proof.
   - exact Hcoll.
 Qed.
 
-Lemma deduct_fee_actor b who b1 : deduct_fee b who = Some b1 -> who <> FARM ->
+Lemma deduct_fee_actor cf tr b who b1 : deduct_fee cf tr b who = Some b1 -> who <> FARM ->
   forall x d, x <> FARM -> x <> FEEC -> x <> BURN ->
-  bal b1 x d = bal b x d - (if x =? who then (if d =? STAKE then creation_fee else 0) else 0).
+  bal b1 x d = bal b x d - (if x =? who then (if d =? STAKE then cf else 0) else 0).
 Proof.
-  unfold deduct_fee. set (tax := dec_truncate_int (dec_mul (dec_of_int creation_fee) tax_rate)).
-  destruct (send b who FARM STAKE creation_fee) as [l1|] eqn:E1; [|discriminate].
+  unfold deduct_fee. set (tax := dec_truncate_int (dec_mul (dec_of_int cf) tr)).
+  destruct (send b who FARM STAKE cf) as [l1|] eqn:E1; [|discriminate].
   destruct (send l1 FARM FEEC STAKE tax) as [l2|] eqn:E2; [|discriminate].
   intros E3 HwF x d HxF HxE HxB.
   destruct (send_bal _ _ _ _ _ _ E1) as [_ H1]. destruct (send_bal _ _ _ _ _ _ E2) as [_ H2]. destruct (send_bal _ _ _ _ _ _ E3) as [_ H3].
@@ -251,7 +251,7 @@ Lemma create_balances s who lpt start ed rules s' rw : inv s -> actor who -> cre
   (forall k v, In (k, v) (pools s) -> get k (pools s') = Some v) /\ rw = []
   /\ (forall x d, x <> FARM -> x <> FEEC -> x <> BURN ->
         bal (bank s') x d - bal (bank s) x d
-        = if x =? who then - csum (map (fun '(d0, t, _) => (d0, t)) rules) d - (if d =? STAKE then creation_fee else 0) else 0).
+        = if x =? who then - csum (map (fun '(d0, t, _) => (d0, t)) rules) d - (if d =? STAKE then cfee s else 0) else 0).
 Proof.
   intros I (HwF & HwC & HwE & HwB) H.
   destruct (create_Done _ _ _ _ _ _ _ _ H) as (b1 & b2 & iv & _ & _ & _ & _ & Hfee & Hsend & _ & -> & ->).
@@ -259,7 +259,7 @@ Proof.
   - intros k v Hin. simpl. rewrite get_set_other; [exact (In_get _ _ _ (i_nodup _ I) Hin)|].
     pose proof (i_ids _ I) as Hids. rewrite Forall_forall in Hids. assert (In k (keys (pools s))) as Hk.
     { unfold keys. apply in_map_iff. exists (k, v). auto. } specialize (Hids k Hk). lia.
-  - intros x d HxF HxE HxB. simpl. rewrite Hb2, (deduct_fee_actor _ _ _ Hfee HwF x d HxF HxE HxB).
+  - intros x d HxF HxE HxB. simpl. rewrite Hb2, (deduct_fee_actor _ _ _ _ _ Hfee HwF x d HxF HxE HxB).
     destruct (Z.eqb_spec x who) as [->|Hne].
     + rewrite (moved_many_from who FARM) by exact HwF. lia.
     + rewrite (moved_many_other x who FARM) by assumption. lia.
@@ -359,11 +359,11 @@ Lemma msg_no_refund s m oc0 rw0 pid :
 Proof. intros H. destruct m; try reflexivity. exfalso. exact (H _ _ eq_refl). Qed.
 
 Lemma balances_lemma s st oc0 rw0 :
-  inv s -> valid_step st -> (match st with Msg m => In (sender m) actors | NextBlock => True end) ->
+  inv s -> valid_step st -> actor_step st ->
   let a := obs_of s oc0 rw0 in
   let b := obs_after s st in
   let s' := step_state s st in
-  (forall x d, In x actors -> bal (bank s') x d - bal (bank s) x d = msg_delta b st x d + refund_to (height s) a st b x d)
+  (forall x d, In x actors -> bal (bank s') x d - bal (bank s) x d = msg_delta (cfee s) b st x d + refund_to (height s) a st b x d)
   /\ (forall d, bal (bank s') COLL d - bal (bank s) COLL d = released_total a b d - amount_of (o_rw b) d).
 Proof.
   intros I Hv Hact a b s'. pose proof (i_nodup _ I) as Hnd.
@@ -383,7 +383,7 @@ Proof.
     assert (o_code b = 0) as Hcode by (rewrite Hb; reflexivity).
     assert (o_rw b = rw) as Hrw by (rewrite Hb; reflexivity).
     assert (o_pools b = pools s2) as Hpb by (rewrite Hb; reflexivity).
-    destruct m as [who lpt start ed rules|who pid d0 amt|who pid d0 amt|who pid|who pid add rpb|who pid]; simpl in E, Hv, Hact.
+    destruct m as [who lpt start ed rules|who pid d0 amt|who pid d0 amt|who pid|who pid add rpb|who pid|who cf tr]; simpl in E, Hv, Hact.
     + (* create *)
       destruct (create_balances _ _ _ _ _ _ _ _ I Hv E) as (Hsame & -> & Hbal). split.
       * intros x d Hx. destruct (actors_not_module x Hx) as (H1 & H2 & H3 & H4). rewrite (Hbal x d H1 H3 H4).
@@ -395,7 +395,7 @@ Proof.
         destruct (create_Done _ _ _ _ _ _ _ _ E) as (b1 & b2 & iv & _ & _ & _ & _ & Hfee & Hsend & _ & _ & ->).
         destruct (send_many_bal _ _ _ _ _ Hsend) as [_ Hb2]. destruct Hv as (HwF & HwC & _).
         simpl. rewrite Hb2. rewrite (moved_many_other COLL who FARM) by (try discriminate; congruence).
-        destruct (deduct_fee_bal _ _ _ Hfee HwF HwC d) as [_ ->]. lia.
+        destruct (deduct_fee_bal _ _ _ _ _ Hfee HwF HwC d) as [_ ->]. lia.
     + (* stake *)
       destruct (stake_balances _ _ _ _ _ _ _ I Hv E) as (p & pb & Hg & Hgb & Hla & Hoth & Hndrw & Hbal & Hcoll). split.
       * intros x d Hx. destruct (actors_not_module x Hx) as (H1 & H2 & _). rewrite (Hbal x d H1 H2).
@@ -437,6 +437,11 @@ Proof.
         rewrite rule_sum_minus, (rule_sum_released_upd _ _ _ _ Hla). destruct (p_creator p =? x); lia.
       * intros d. rewrite (released_total_one a b pid p pb d Hnd Hg ltac:(rewrite Hpb; exact Hgb) ltac:(rewrite Hpb; exact Hoth)).
         rewrite (rule_sum_released_upd _ _ _ _ Hla), Hrw, amount_of_nil. rewrite (Hcoll d). lia.
+    + (* parameter change: no coin moves *)
+      destruct (update_params_Done _ _ _ _ _ _ E) as (_ & _ & _ & -> & ->). split.
+      * intros x d _. cbn [bank]. rewrite refund_to_none by (intros; reflexivity). unfold msg_delta. rewrite Hcode. cbn [negb Z.eqb]. lia.
+      * intros d. rewrite released_total_same; [rewrite Hrw, amount_of_nil; cbn [bank]; lia|].
+        intros k v Hin. rewrite Hpb. exact (In_get _ _ _ Hnd Hin).
   - (* next block *)
     destruct (end_block_effect (due s) s I (NoDup_due _ (i_qnd _ I)) (fun pid H => proj1 (in_due s pid) H)) as (Ha & Hc & Hp & Hn).
     cbv zeta in Ha, Hc, Hp, Hn. fold (end_block s) in Ha, Hc, Hp, Hn.
@@ -495,8 +500,8 @@ Qed.
 
 (** ** the theorem *)
 Theorem model_passes_c06 s st oc0 rw0 :
-  inv s -> valid_step st -> (match st with Msg m => In (sender m) actors | NextBlock => True end) ->
-  c06_step (height s) (obs_of s oc0 rw0) st (obs_after s st) = 0.
+  inv s -> valid_step st -> actor_step st ->
+  c06_step (height s) (cfee s) (obs_of s oc0 rw0) st (obs_after s st) = 0.
 Proof.
   intros I Hv Hact. pose proof (step_inv s st I Hv) as I'.
   destruct (balances_lemma s st oc0 rw0 I Hv Hact) as [H15 H16]. cbv zeta in H15, H16.
